@@ -8,20 +8,24 @@ A  TLC on Svs: nodes {self,n1,n2}, sequence numbers 0..MaxSeq, *every* received 
    and Mode "impl" (open choices resolved as sync.py does). All properties are action properties;
    vacuity = every action taken + every witness transition kind seen. The two named deviations
    must each be *caught* by the properties (spec-level sensitivity).
-B  the Mode "impl" state graph with both deviations enabled as alternative edges is covered
-   adaptively on the real SvsInst: a planned path gives the stimuli; after each stimulus the
-   projection of the instance is looked up among the graph successors with the same stimulus.
-   Deviation edge matched -> finding; no edge matched -> the recorded execution is judged by
-   SvsTrace in Mode "open" (so that only C18, not sync.py's present choices, can reject it).
+B  the Mode "impl" state graph (TLC dump), with both deviations enabled as alternative edges, is
+   covered on the fly on the real SvsInst: every stimulus (edge label minus the choice
+   parameter) enabled in a graph state is applied to the instance in that state; the projection
+   of the instance selects the successor edge(s). Only deviation edges match -> finding; no
+   edge matches -> the recorded execution is judged by SvsTrace in Mode "open" (so that only
+   C18, not sync.py's present choices, can reject it).
 C  random histories (5 nodes, sequence numbers <= 20, ~100 events) recorded from the real
-   instance and judged by SvsTrace (Mode "open", deviations reported).
+   instance and judged by SvsTrace: pass 1 deviations off, pass 2 (rejected ones) deviations on.
+
+Findings carry the signature of the named deviation that explains them
+(C18/SvsInst/<action>/<property>/<deviation>) or, if none does,
+C18/SvsInst/<action>/<packet class | state before>/<projection field(s)>[/<observed>].
 """
 import hashlib, json, os, re
 from collections import deque
 
-from harness import tlc, graph, core
+from harness import tlc, graph
 from harness.tlaval import seq
-from harness import svskit
 from harness.svskit import Scenario, NOSEQ, NOID
 
 NODES3 = ['self', 'n1', 'n2']
@@ -40,14 +44,38 @@ DEV_SIG = {'devAgg': ('C18/SvsInst/TimerFire/SuppressionDecision/devAgg',
                         'local_sv, then TypeError - on_missing_data is not called although an entry was raised')}
 
 
-def consts(nodes, maxseq, packets, mode, dev, maxt, init=(0,), burst=2, sup=1, sync=9, jit=(0, 1), tick_ends=False):
+MAX_DIAG = 40
+DEV_OF = {'devAgg': 'aggLocal', 'devNoSeq': 'noSeq'}     # choice name -> member of the constant Dev
+
+
+def finding(ctx, sig, what, obj):
+    """collect findings per signature, keeping the shortest history; flushed at the end of run()"""
+    box = ctx.extra.setdefault('_findings', {})
+    cur = box.get(sig)
+    size = (obj.get('earlier', 0), obj.get('at', 10 ** 9))
+    if cur is None:
+        box[sig] = {'what': what, 'obj': obj, 'n': 1, 'size': size}
+    else:
+        cur['n'] += 1
+        if size < cur['size']:
+            cur.update(what=what, obj=obj, size=size)
+
+
+def flush(ctx):
+    for sig, f in sorted(ctx.extra.pop('_findings', {}).items()):
+        for _ in range(f['n']):
+            ctx.violation(sig, f['what'], f['obj'])
+
+
+def consts(nodes, maxseq, packets, mode, dev, maxt, init=(0,), burst=2, sup=1, sync=9, jit=(0, 1), tick_ends=False,
+           hint=False):
     return {'NodeOrder': '<- Nodes%d' % len(nodes), 'MaxSeq': maxseq,
             'InitSeqs': '{%s}' % ','.join(map(str, init)),
             'Packets': packets if packets.startswith('{') else '<- %s' % packets,
             'Mode': '"%s"' % mode, 'Dev': '{%s}' % ','.join('"%s"' % d for d in dev),
             'SupBase': sup, 'SyncBase': sync, 'Jitter': '{%s}' % ','.join(map(str, jit)),
             'MaxT': maxt, 'MaxBurst': burst, 'MaxEv': 0,
-            'TickEnds': 'TRUE' if tick_ends else 'FALSE'}
+            'TickEnds': 'TRUE' if tick_ends else 'FALSE', 'UseHint': 'TRUE' if hint else 'FALSE'}
 
 
 # ------------------------------------------------------------------ stage A
@@ -63,11 +91,11 @@ def stage_a(ctx):
         cfg = os.path.join(tlc.BUILD, name + '.cfg')
         tlc.write_cfg(cfg, constants=consts(NODES3, ms, pk, mode, (), maxt, init=init), invariants=INVS,
                       properties=PROPS + ['Witnesses'], view='View')
-        r = tlc.run('Svs', cfg, workers=w, heavy=not ctx.quick, tag=name)
+        r = tlc.run('SvsMC', cfg, workers=w, heavy=not ctx.quick, tag=name)
         ctx.add_tlc('Svs exhaustive mode=%s packets=%s nodes=3 MaxSeq=%d, unbounded events' % (mode, pk, ms), r)
         if r.violated:
-            ctx.violation('C18/spec/%s/%s' % (mode, r.violated), 'TLC: %s violated in Svs (mode %s)' % (r.violated, mode),
-                          {'kind': 'tlc', 'trace': r.errtrace})
+            finding(ctx, 'C18/spec/%s/%s' % (mode, r.violated), 'TLC: %s violated in Svs (mode %s)' % (r.violated, mode),
+                   {'kind': 'tlc', 'trace': r.errtrace})
             continue
         # (TLC's -coverage costs a factor 4 here; the Act* witnesses establish that every action is taken)
         seen = set(re.findall(r'<<"WITNESS", "(\w+)">>', r.out))
@@ -79,7 +107,7 @@ def stage_a(ctx):
         cfg = os.path.join(tlc.BUILD, 'Svs_A_dev_%s.cfg' % dev)
         tlc.write_cfg(cfg, constants=consts(NODES3, 2, 'PacketsReplay', 'open', (dev,), 1), invariants=INVS,
                       properties=PROPS, view='View')
-        r = tlc.run('Svs', cfg, workers=w, heavy=False, tag='Svs_A_dev')
+        r = tlc.run('SvsMC', cfg, workers=w, heavy=False, tag='Svs_A_dev')
         ctx.add_tlc('Svs with deviation %s (must violate %s)' % (dev, '/'.join(expect)), r)
         if r.violated not in expect:
             raise tlc.MachineryError('deviation %s is not caught by %s (TLC: %s)' % (dev, expect, r.violated))
@@ -171,6 +199,7 @@ class Cover:
         self.paths = 0
         self.dev_hits = {}
         self.stims = {}               # state -> {stim key: (event, [edge index])}
+        self._usable = {}
         self.todo = {}                # state -> set of stim keys not attempted
         for s in g.state:
             d = {}
@@ -181,29 +210,36 @@ class Cover:
             self.todo[s] = set(d)
         self.n_stimuli = sum(len(d) for d in self.stims.values())
 
+    def usable(self, s):
+        """{dst: stimulus key} over the edges of s the implementation takes or has not been asked to take"""
+        m = self._usable.get(s)
+        if m is None:
+            m = {}
+            for key, (ev, ks) in self.stims[s].items():
+                tried = (s, key) in self.attempted
+                for k in ks:
+                    if not tried or (s, k) in self.covered:
+                        m.setdefault(self.g.edges[s][k][2], key)
+            self._usable[s] = m
+        return m
+
     def next_stimulus(self, curs):
         for s in sorted(curs):
             if self.todo[s]:
                 return min(self.todo[s])
-        # breadth-first over usable edges: taken by the implementation, or not tried yet
         seen = {s: None for s in curs}
         dq = deque(sorted(curs))
         while dq:
             s = dq.popleft()
-            for key, (ev, ks) in self.stims[s].items():
-                tried = (s, key) in self.attempted
-                for k in ks:
-                    if tried and (s, k) not in self.covered:
-                        continue
-                    dst = self.g.edges[s][k][2]
-                    if dst in seen:
-                        continue
-                    seen[dst] = (s, key)
-                    if self.todo[dst]:
-                        while seen[dst][0] not in curs:
-                            dst = seen[dst][0]
-                        return seen[dst][1]
-                    dq.append(dst)
+            for dst, key in self.usable(s).items():
+                if dst in seen:
+                    continue
+                seen[dst] = (s, key)
+                if self.todo[dst]:
+                    while seen[dst][0] not in curs:
+                        dst = seen[dst][0]
+                    return seen[dst][1]
+                dq.append(dst)
         return None
 
     def run_path(self, init, max_len):
@@ -220,6 +256,7 @@ class Cover:
             # the hidden part of the state (heard, agg) can make two successors look alike: keep
             # every graph state that explains the observations so far
             curs = {init}
+            earlier = 0
             while len(evs) < max_len:
                 key = self.next_stimulus(curs)
                 if key is None:
@@ -230,6 +267,7 @@ class Cover:
                     if key in self.stims[s]:
                         self.attempted.add((s, key))
                         self.todo[s].discard(key)
+                        self._usable.pop(s, None)
                 obs = sc.apply(ev)
                 self.steps += 1
                 rec = dict(ev)
@@ -242,15 +280,18 @@ class Cover:
                     self.suspects.append({'cfg': {'init': st0['selfSeq'], 't0': st0['timer']}, 'ev': list(evs)})
                     break
                 self.covered.update(exact)
+                for (s, k) in exact:
+                    self._usable.pop(s, None)
                 choices = {edge_event(*g.edges[s][k][:2])[1] for (s, k) in exact}
                 if choices <= set(DEV_SIG):     # only a named deviation explains this step
                     for choice in sorted(choices):
                         self.dev_hits[choice] = self.dev_hits.get(choice, 0) + 1
                         sig, what = DEV_SIG[choice]
-                        ctx.violation(sig, what, {'kind': 'trace', 'nodes': self.nodes, 'sup': self.sup,
-                                                  'sync': self.sync, 'rstep': 32768, 'at': len(evs),
+                        finding(ctx, sig, what, {'kind': 'trace', 'nodes': self.nodes, 'sup': self.sup,
+                                                  'sync': self.sync, 'rstep': 32768, 'at': len(evs), 'earlier': earlier,
                                                   'rec': {'cfg': {'init': st0['selfSeq'], 't0': st0['timer']},
                                                           'ev': list(evs)}})
+                    earlier += 1
                 curs = {g.edges[s][k][2] for (s, k) in exact}
             bg = sc.errors()
         finally:
@@ -262,13 +303,13 @@ class Cover:
 def stage_b(ctx):
     confs = [(NODES3, 1, 'PacketsReplay', None)]
     if not ctx.quick:
-        confs.append((NODES3, 2, 'PacketsReplay', 250000))
+        confs.append((NODES3, 2, 'PacketsReplay', 150000))
     for nodes, ms, pk, budget in confs:
         name = 'Svs_B_%d' % ms
         cfg = os.path.join(tlc.BUILD, name + '.cfg')
         tlc.write_cfg(cfg, constants=consts(nodes, ms, pk, 'impl', ('aggLocal', 'noSeq'), 10, tick_ends=True),
                       invariants=INVS, view='View')
-        g = graph.dump('Svs', cfg, workers=ctx.pick(4, 8), tag=name)
+        g = graph.dump('SvsMC', cfg, workers=ctx.pick(4, 8), tag=name)
         ctx.add_tlc('Svs impl graph nodes=3 MaxSeq=%d packets=%s deviations as alternative edges (%d edges)' % (
             ms, pk, g.n_edges), g.tlc)
         cov = Cover(ctx, g, nodes, 2, 10)
@@ -311,65 +352,103 @@ def stage_b(ctx):
 
 # ------------------------------------------------------------------ trace judge (B suspects, C, replay)
 
-def judge(ctx, recs, nodes, sup, sync, rstep, name, maxseq=24, report=True):
-    """Validate recorded executions with SvsTrace (Mode open, deviations reported).
-    Returns findings [{'trace': index, 'at': event number (1-based), 'sig', 'what', 'dev': bool}]."""
+def _validate(ctx, recs, idx, nodes, dev, name, maxseq, env=None, count=True):
     tf = os.path.join(tlc.BUILD, '%s-traces-%s.ndjson' % (name, ctx.tier))
     with open(tf, 'w') as f:
-        for r in recs:
+        for i in idx:
+            r = recs[i] if not isinstance(i, tuple) else {'cfg': recs[i[0]]['cfg'], 'ev': recs[i[0]]['ev'][:i[1]]}
             f.write(json.dumps(r) + '\n')
-    cfg = os.path.join(tlc.BUILD, 'SvsTrace_%d.cfg' % len(nodes))
+    cfg = os.path.join(tlc.BUILD, 'SvsTrace_%d_%s.cfg' % (len(nodes), 'dev' if dev else 'pure'))
     tlc.write_cfg(cfg, spec='TSpec',
-                  constants=consts(nodes, maxseq, '{}', 'open', ('aggLocal', 'noSeq'), 64, burst=3),
+                  constants=consts(nodes, maxseq, '{}', 'open', dev, 64, burst=3, hint=True),
                   invariants=['OwnEntry', 'SteadyForgets'],
                   properties=['Monotone', 'OverclaimIgnored', 'PublishEmitsFullVector', 'EmitsOnlyLocal', 'HeardIsMerge'],
                   constraints=['Mark'], postcondition='Post', view='TView')
-    r, rejected = tlc.validate_traces('SvsTrace', cfg, tf, tag=name)
-    ctx.add_tlc('SvsTrace %s (%d executions)' % (name, len(recs)), r)
+    r, rejected = tlc.validate_traces('SvsTrace', cfg, tf, env=env, tag=name)
+    if count:
+        ctx.add_tlc('SvsTrace %s deviations=%s (%d executions)' % (name, 'on' if dev else 'off', len(idx)), r)
+    return r, {int(a): int(b) for a, b in rejected}
+
+
+def judge(ctx, recs, nodes, sup, sync, rstep, name, maxseq=24, report=True):
+    """Validate recorded executions with SvsTrace (Mode open).
+    Pass 1, deviations off: an execution that is accepted is a behaviour of the specification.
+    Pass 2, only for the rest, deviations on: the first event no specification step explains is
+    attributed to the named deviation that explains it (finding with the deviation's signature), or,
+    if none does, the projection field is named by re-validation with one field relaxed at a time.
+    Returns findings [{'trace': index, 'at': event number (1-based), 'sig', 'what', 'dev': bool}]."""
     out = []
-    if r.violated:
-        out.append({'trace': 0, 'at': 0, 'dev': False, 'sig': 'C18/SvsInst/trace-property/%s' % r.violated,
-                    'what': 'property %s violated on a recorded execution' % r.violated, 'obj': {'errtrace': r.errtrace}})
-    for t, l, c in sorted({(int(a), int(b), c) for a, b, c in re.findall(r'<<"DEVUSED", (\d+), (\d+), "(\w+)">>', r.out)}):
-        sig, what = DEV_SIG[c]
-        out.append({'trace': t - 1, 'at': l, 'dev': True, 'sig': sig, 'what': what})
-    if rejected:
-        # name the projection field: re-run the rejected prefixes with one field relaxed at a time
-        bad = [(i - 1, int(l)) for i, l in rejected]
-        fields = {}
-        for fld in ('out', 'missed', 'local', 'state', 'timer', 'seq'):
-            tf2 = os.path.join(tlc.BUILD, '%s-diag-%s.ndjson' % (name, ctx.tier))
-            with open(tf2, 'w') as f:
-                for i, l in bad:
-                    f.write(json.dumps({'cfg': recs[i]['cfg'], 'ev': recs[i]['ev'][:l]}) + '\n')
-            r2, rej2 = tlc.validate_traces('SvsTrace', cfg, tf2, env={'SVS_RELAX': fld}, tag=name + '-diag')
-            still = {int(a) for a, _ in rej2}
-            for n, (i, l) in enumerate(bad):
-                if (n + 1) not in still:
-                    fields.setdefault(i, []).append(fld)
-        for i, l in bad:
-            ev = recs[i]['ev'][l - 1] if 0 < l <= len(recs[i]['ev']) else None
-            pre = recs[i]['ev'][l - 2]['post']['state'] if l >= 2 else 'Steady'
-            fl = '+'.join(fields.get(i, [])) or 'several'
-            if ev is None:
-                sig, what = 'C18/SvsInst/trace/end', 'trace bookkeeping'
-            else:
-                cls = packet_class(ev['p']) if ev['a'] == 'RecvSV' else pre
-                obs = ''
-                if fl == 'out':
-                    obs = '/emitted' if ev['post']['out'] else '/not-emitted'
-                elif fl == 'missed':
-                    obs = '/called' if ev['post']['missed'] else '/not-called'
-                sig = 'C18/SvsInst/%s/%s/%s%s' % (ev['a'], cls, fl, obs)
-                what = ('event %d %s (%s, state before: %s) is not a step of Svs: projection field(s) %s; observed %s'
-                        % (l, ev['a'], cls, pre, fl, json.dumps(ev['post'])))
-            out.append({'trace': i, 'at': l, 'dev': False, 'sig': sig, 'what': what})
+    r1, rej1 = _validate(ctx, recs, list(range(len(recs))), nodes, (), name, maxseq)
+    if r1.violated:
+        out.append({'trace': 0, 'at': 0, 'dev': False, 'sig': 'C18/SvsInst/trace-property/%s' % r1.violated,
+                    'what': 'property %s violated on a recorded execution' % r1.violated, 'obj': {'errtrace': r1.errtrace}})
+    bad = sorted((t - 1, l) for t, l in rej1.items())           # (trace index, first unexplained event)
+    if bad:
+        r2, rej2 = _validate(ctx, recs, [i for i, _ in bad], nodes, ('aggLocal', 'noSeq'), name + '-dev', maxseq)
+        used = {}
+        for t, l, c in re.findall(r'<<"DEVUSED", (\d+), (\d+), "(\w+)">>', r2.out):
+            used.setdefault(int(t) - 1, set()).add((int(l), c))
+        unexplained = []
+        first = {}
+        for n, (i, l) in enumerate(bad):
+            l2 = rej2.get(n + 1)
+            if l2 is None or l2 > l:
+                cands = sorted((ll, c) for ll, c in used.get(n, ()) if ll <= l)
+                if not cands:
+                    raise tlc.MachineryError('trace %d passes event %d only with deviations on, but no deviation was reported' % (i, l))
+                ll, c = cands[-1]
+                sig, what = DEV_SIG[c]
+                out.append({'trace': i, 'at': ll, 'dev': True, 'sig': sig, 'what': what})
+                first.setdefault(c, []).append((i, l2))
+            if l2 is not None:
+                unexplained.append((i, l2))
+        # pass 3: does an execution whose first deviation is c need the other deviation later on?
+        for c, lst in sorted(first.items()):
+            other = [d for d in DEV_OF if d != c][0]
+            r3, rej3 = _validate(ctx, recs, [i for i, _ in lst], nodes, (DEV_OF[c],), name + '-dev1', maxseq)
+            for n, (i, l2) in enumerate(lst):
+                l3 = rej3.get(n + 1)
+                if l3 is not None and (l2 is None or l3 < l2):
+                    sig, what = DEV_SIG[other]
+                    out.append({'trace': i, 'at': l3, 'dev': True, 'sig': sig, 'what': what, 'earlier': 1})
+        if unexplained:
+            # name the projection field: re-run the rejected prefixes with one field relaxed at a time
+            # (the shortest MAX_DIAG of them; a broken tree rejects thousands, all for a few reasons)
+            unexplained.sort(key=lambda x: (x[1], x[0]))
+            dropped = len(unexplained) - MAX_DIAG
+            unexplained = unexplained[:MAX_DIAG]
+            if dropped > 0:
+                ctx.note('%s: %d further rejected executions not diagnosed individually' % (name, dropped))
+            fields = {}
+            for fld in ('out', 'missed', 'local', 'state', 'timer', 'seq'):
+                _, rej3 = _validate(ctx, recs, unexplained, nodes, ('aggLocal', 'noSeq'), name + '-diag', maxseq,
+                                    env={'SVS_RELAX': fld}, count=False)
+                for n, (i, l) in enumerate(unexplained):
+                    if (n + 1) not in rej3:
+                        fields.setdefault((i, l), []).append(fld)
+            for i, l in unexplained:
+                ev = recs[i]['ev'][l - 1] if 0 < l <= len(recs[i]['ev']) else None
+                pre = recs[i]['ev'][l - 2]['post']['state'] if l >= 2 else 'Steady'
+                fl = '+'.join(fields.get((i, l), [])) or 'several'
+                if ev is None:
+                    sig, what = 'C18/SvsInst/trace/end', 'trace bookkeeping'
+                else:
+                    cls = packet_class(ev['p']) if ev['a'] == 'RecvSV' else pre
+                    obs = ''
+                    if fl == 'out':
+                        obs = '/emitted' if ev['post']['out'] else '/not-emitted'
+                    elif fl == 'missed':
+                        obs = '/called' if ev['post']['missed'] else '/not-called'
+                    sig = 'C18/SvsInst/%s/%s/%s%s' % (ev['a'], cls, fl, obs)
+                    what = ('event %d %s (%s, state before: %s) is not a step of Svs: projection field(s) %s; '
+                            'observed %s' % (l, ev['a'], cls, pre, fl, json.dumps(ev['post'])))
+                out.append({'trace': i, 'at': l, 'dev': False, 'sig': sig, 'what': what})
     if report:
         for f in out:
             obj = f.get('obj') or {'kind': 'trace', 'nodes': nodes, 'sup': sup, 'sync': sync, 'rstep': rstep,
-                                   'at': f['at'], 'rec': {'cfg': recs[f['trace']]['cfg'],
+                                   'at': f['at'], 'earlier': f.get('earlier', 0), 'rec': {'cfg': recs[f['trace']]['cfg'],
                                                           'ev': recs[f['trace']]['ev'][:max(f['at'], 1)]}}
-            ctx.violation(f['sig'], f['what'], obj)
+            finding(ctx, f['sig'], f['what'], obj)
     return out
 
 
@@ -445,7 +524,7 @@ def record_random(rng, nodes, n_events, sup, sync, rstep, njit):
 
 
 def stage_c(ctx):
-    n = ctx.pick(60, 1500)
+    n = ctx.pick(60, 1200)
     sup, sync, rstep, njit = 8, 40, 8192, 8
     recs, bgs = [], []
     for i in range(n):
@@ -480,12 +559,15 @@ def run(ctx):
                        'virtual-time loop is faithful to asyncio timer semantics; a packet and an expiry at the same '
                        'instant are ordered packet-first or expiry-first, never inside one loop iteration',
                        'node ids within one received vector are distinct']
-    if 'A' in ctx.stages:
-        stage_a(ctx)
-    if 'B' in ctx.stages:
-        stage_b(ctx)
-    if 'C' in ctx.stages:
-        stage_c(ctx)
+    try:
+        if 'A' in ctx.stages:
+            stage_a(ctx)
+        if 'B' in ctx.stages:
+            stage_b(ctx)
+        if 'C' in ctx.stages:
+            stage_c(ctx)
+    finally:
+        flush(ctx)
 
 
 def replay(ctx, path):
